@@ -105,17 +105,37 @@ def gen_spec(rng, slot_index, swarm):
     span_days = rng.choice([0.5, 3, 3, 40, 40, 40, 400, 400, 400, 4000, 4000])
     clustered = rng.random() < 0.4
     centres = [rng.random() for _ in range(rng.choice([1, 2, 3]))]
+    pool = swarm.get("pool")
+    use_pool = pool is not None and kind in ("dt", "d", "n") and rng.random() < 0.7
+    both_ends = use_pool and rng.random() < 0.5
+    if use_pool:
+        # slots of this run draw their instants from one shared pool: equal time
+        # values (and often equal data extents) across different timelines
+        base = datetime.datetime(2010, 3, 1)
+        span_days = pool["span_days"]
     items = []
     for i in range(n):
         it = {}
         u = rng.random()
+        if use_pool:
+            if both_ends and i < 2:
+                u = pool["u"][0] if i == 0 else pool["u"][-1]
+            elif rng.random() < 0.8:
+                u = rng.choice(pool["u"])
+            if kind == "n":
+                it["time"] = ["n", int(u * 1000)]
+            else:
+                t = base + datetime.timedelta(seconds=int(u * span_days * 86400))
+                it["time"] = ["dt", t.isoformat()] if kind == "dt" else ["d", t.date().isoformat()]
         if clustered and i > 0:
             # few distinct neighbourhoods (plus one far item to keep the domain wide):
             # such layouts need several layers and put stubs next to each other
             u = min(1.0, max(0.0, rng.choice(centres) + rng.choice([0, 0, 0.002, -0.004, 0.01])))
         elif clustered:
             u = rng.choice([0.0, 1.0])
-        if kind == "n":
+        if use_pool:
+            pass
+        elif kind == "n":
             it["time"] = ["n", (int(u * 1000) if rng.random() < 0.7 else int(u * 4000) / 4.0) + 100 * slot_index]
         else:
             t = base + datetime.timedelta(seconds=int(u * span_days * 86400))
@@ -229,6 +249,9 @@ def gen_plan(rng, tier):
     }
     if rng.random() < 0.3:
         swarm["faults"] = {k: False for k in swarm["faults"]}
+    if swarm["ranges"] == "overlap":
+        swarm["pool"] = {"u": sorted(rng.random() for _ in range(rng.choice([4, 6, 8]))),
+                         "span_days": rng.choice([40, 400, 4000])}
     slots = [gen_spec(rng, i, swarm) for i in range(nslots)]
     initial = copy.deepcopy(slots)
     constructed = [False] * nslots
